@@ -328,6 +328,22 @@ func c10Fixed() []string {
 			l = append(l, "var t = 1\ndef o { var p = 2\n"+b.String()[len("def first { done = 1 }\n"):len(b.String())-len("print 5\n")]+"g = p + t }\n")
 		}
 	}
+	// one to three bind statements whose block type is constant number n (every operand class), behind and ahead of the block
+	for _, n := range []int{0, 1, 100, 238, 239, 240, 241, 242, 300, 2285, 2286, 2287, 2288, 2300} {
+		b.Reset()
+		for k := 0; k < n; k++ {
+			fmt.Fprintf(&b, "print %d.5\n", k)
+		}
+		pre := b.String()
+		l = append(l,
+			pre+"def srv_late \"n\" { x = 1 }\nbind srv_late -> struct\nbind srv_late:first -> slice\nbind srv_late:all -> slice\nprint 1 and 2\n",
+			pre+"bind ahead -> struct\nbind ahead -> struct\ndef ahead { y = 2 }\ndef other { ahead = 3 }\nbind ahead:last -> slice\n",
+			pre+"def a1 { x = 1 }\nbind a1 -> struct\ndef b1 { bind a1:all -> slice\n y = 0 or 1 }\nbind b1 -> struct\n",
+			pre+"def only { x = 1 }\nbind only -> struct\n",
+			pre+"bind ahead -> struct\nbind ahead:all -> slice\n",
+			pre+"bind ahead -> struct\nbind ahead -> slice\nprint 77.25\nprint 78\ndef ahead { y = 2 }\n",
+			pre+"bind ahead -> struct\nbind other -> struct\nbind ahead:last -> slice\nprint 79\n")
+	}
 	// > 240 constants: constant indices crossing the varint range inside skipped operands
 	b.Reset()
 	for k := 0; k < 300; k++ {
